@@ -253,6 +253,7 @@ let jsprint_case sx =
   let rec parse () =
     match next () with
     | "A" -> PrintModel.EAtom (coq_string (next ()))
+    | "T" -> PrintModel.EConst (match next () with "true" -> PrintModel.CTrue | "false" -> PrintModel.CFalse | "undefined" -> PrintModel.CUndefined | _ -> PrintModel.CInfinity)
     | "G" -> PrintModel.EGroup (parse ())
     | "B" -> let op = coq_string (next ()) in let x = parse () in let y = parse () in PrintModel.EBin (op, x, y)
     | "P" -> let op = coq_string (next ()) in PrintModel.EPre (op, parse ())
